@@ -30,9 +30,42 @@ func checkC07(c *core.Ctx, r *core.Report) {
 		"(1) ORDER in SegStore.AppendWipToSegfile — column writer goroutines are awaited (WaitGroup.Wait on the group they Done) before the block summary, the unrotated block info, the running .sfm and the wip reset; block summary and segment statistics precede the running .sfm; " +
 		"(2) ATOMIC — no in-place truncating open (O_TRUNC without O_APPEND, os.Create, os.WriteFile) of a recovery-critical file class (.sfm, segmeta.json, .sst, suffix file): only O_APPEND or tmp+rename, and no write to the tmp file after the rename; " +
 		"(3) ORDER in checkAndRotateColFiles (durable segmeta entry, then rotated metadata, then removal from the unrotated table) and in suffix.getAndIncrementSuffixFromFile (increment, persist, then return); " +
-		"(4) GUARD — recovery adopts a segment directory only when its .sfm was read and parsed without error."
+		"(4) GUARD — recovery adopts a segment directory only when its .sfm was read and parsed without error; " +
+		"(5) GUARD — ReadSfm reports success only after it has decoded file content (a missing .sfm is an error, not an empty answer)."
 	r.NotCovered = "partial writes inside one system call, fsync ordering, I/O error paths, content equality after recovery, exactly-once visibility of recovered events"
 	sm := newSummaries(c)
+
+	// ---------------------------------------------------------------- (5) a missing .sfm is an error, not an empty answer
+	// Start-up recovery adopts a segment directory on ReadSfm's nil error and then uses the parsed meta (clause 4).  So
+	// ReadSfm may report success only after it has parsed file content: every return that can carry a nil error is
+	// dominated by the JSON decoding of the bytes read.
+	{
+		readSfm := c.Fn(pkgWriter, "ReadSfm")
+		var decodes []ssa.Instruction
+		for _, ci := range core.CallsIn(readSfm) {
+			if f := core.CalleeFunc(ci); f != nil && (f.Name() == "Unmarshal" || f.Name() == "Decode") {
+				decodes = append(decodes, ci)
+			}
+		}
+		r.Floor("GUARD", "JSON decodes in ReadSfm", len(decodes), 1)
+		n := 0
+		for _, ret := range core.Returns(readSfm) {
+			if core.ReturnSuccess(ret) == core.No {
+				continue
+			}
+			n++
+			ok := false
+			for _, d := range decodes {
+				if core.InstrDominates(d, ret) {
+					ok = true
+				}
+			}
+			r.Check(ok, "GUARD", fmt.Sprintf("%s:success#%d-only-after-the-file-was-parsed", shortFn(readSfm), n), c.Pos(ret.Pos()),
+				"the return is dominated by the decoding of the bytes read",
+				"ReadSfm can report success without having parsed a .sfm (for instance for a file that does not exist): recovery then adopts the directory and dereferences the empty result, the start-up goroutine panics and the segments with completed flushes are never adopted")
+		}
+		r.Floor("GUARD", "returns of ReadSfm that can report success", n, 1)
+	}
 
 	// ---------------------------------------------------------------- (1)
 	appendWip := c.Fn(pkgWriter, "SegStore.AppendWipToSegfile")
@@ -376,6 +409,9 @@ func checkAtomic(c *core.Ctx, r *core.Report, tbl *classTable, classes []string,
 						}
 					}
 				}
+			}
+			if okRename && s.Trunc != core.Yes {
+				r.Violation("ATOMIC", construct+":temporary-file-starts-empty", c.Pos(s.Call.Pos()), "the temporary file is opened without truncation: after a pass that was interrupted between writing the temporary file and the rename, the next pass overwrites the stale file in place, and if it writes fewer bytes the stale tail is renamed onto the live path (entries that were just removed come back)")
 			}
 			if okRename {
 				r.OK("ATOMIC", construct, c.Pos(s.Call.Pos()), "temporary file, renamed onto the live path in the same function")
